@@ -42,6 +42,10 @@ structure DState where
   handlerReturns : Bool := false
   dead : Bool := false
   slist : SList := {}
+  /-- `--src` mode: list operations run the bodies translated from `static_list.hpp` (`Mini.exec`) instead of
+      the hand-written model; `some why` once an operation did not complete -/
+  src : Bool := false
+  srcStuck : Option String := none
   vars : List (String × VPtr) := []
   encoded : Option Emitted := none
   /-- oracle mode: the pointee class of each `virtual_ptr` variable -/
@@ -49,6 +53,15 @@ structure DState where
   oracle : Bool := false
   /-- oracle mode: the registry as of the latest completed update, per policy -/
   snaps : List (String × Registry) := []
+
+/-- a list operation in `--src` mode -/
+def srcListOp (d : DState) (body : Mini.Stmt) (params : List (String × Option Nat)) : DState :=
+  if d.srcStuck.isSome then d else
+  match Mini.run 257 body d.slist params with
+  | .done l => { d with slist := l }
+  | .fault w => { d with srcStuck := some w }
+  | .assertFailed => { d with srcStuck := some "assertion failed" }
+  | .outOfFuel => { d with srcStuck := some "out of fuel" }
 
 def DState.get (d : DState) : Option PState :=
   match d.cur with
@@ -292,10 +305,17 @@ def step (d : DState) (tok : List String) : DState × List String :=
   | "fwd-names" :: names =>
     (d, ["fwd " ++ (writeForwardDeclarations (sortedSet (names.flatMap (extractNames Generated.keywords)))).replace "\n" "|"])
   | "fwd-type" :: _ => (d, ["fwd-type needs the raw line"])
-  | "lpush" :: n :: _ => ({ d with slist := d.slist.pushBack (n.toNat?.getD 0) }, [])
-  | "lremove" :: n :: _ => ({ d with slist := d.slist.remove (n.toNat?.getD 0) }, [])
-  | "lclear" :: _ => ({ d with slist := d.slist.clear 256 }, [])
+  | "lpush" :: n :: _ =>
+    if d.src then (srcListOp d Generated.StaticListSrc.push_back [("node", some (n.toNat?.getD 0))], [])
+    else ({ d with slist := d.slist.pushBack (n.toNat?.getD 0) }, [])
+  | "lremove" :: n :: _ =>
+    if d.src then (srcListOp d Generated.StaticListSrc.remove [("node", some (n.toNat?.getD 0))], [])
+    else ({ d with slist := d.slist.remove (n.toNat?.getD 0) }, [])
+  | "lclear" :: _ =>
+    if d.src then (srcListOp d Generated.StaticListSrc.clear [], [])
+    else ({ d with slist := d.slist.clear 256 }, [])
   | "ldump" :: rest =>
+    if let some why := d.srcStuck then (d, ["list stuck: " ++ why]) else
     let maxn := (rest.head?.bind String.toNat?).getD 8
     let items := d.slist.toList 201
     let o := fun (x : Option Nat) => toString (x.getD 0)
@@ -483,7 +503,7 @@ partial def loop (h : IO.FS.Stream) (out : IO.FS.Stream) (d : DState) : IO Unit 
   let l := line.trimAscii.toString
   if l.startsWith "--- " then
     out.putStrLn l
-    loop h out { oracle := d.oracle }
+    loop h out { oracle := d.oracle, src := d.src }
   else if d.dead then loop h out d
   else
     let tok := (l.splitOn " ").filter (fun t => !t.isEmpty)
@@ -500,4 +520,4 @@ partial def loop (h : IO.FS.Stream) (out : IO.FS.Stream) (d : DState) : IO Unit 
 def main (args : List String) : IO Unit := do
   let stdin ← IO.getStdin
   let stdout ← IO.getStdout
-  loop stdin stdout { oracle := args.contains "--oracle" }
+  loop stdin stdout { oracle := args.contains "--oracle", src := args.contains "--src" }
